@@ -63,8 +63,7 @@ def placeBlocks (K2 : Bytes) (mark : UInt8) :
     | none => .error .indexError
     | some pos => do
       let ptr ← match intToBytes pos cfg.idxSize with | .ok p => pure p | .error e => throw e
-      let (iv, t1) ← takeBytes 16 t
-      let d ← cfg.ske.encrypt lv.E K2 iv (mark :: blk)
+      let (d, t1) ← skeEncrypt cfg.ske lv K2 (mark :: blk) t
       if pos ≥ A.length then throw .indexError
       let (ptrs, avail', A', t2) ← placeBlocks K2 mark rest avail.dropLast (A.set pos (some d)) t1
       pure (ptr :: ptrs, avail', A', t2)
@@ -74,8 +73,7 @@ def dictEntry (K1 K2 : Bytes) (mark : UInt8) (content : Bytes) (t : Tape) : Exce
   let blockSize := (cfg.b * cfg.idSize).toNat
   let padded := content ++ zeros (blockSize - content.length)
   let l ← cfg.prfF.call lv.hmac K1 [0]
-  let (iv, t1) ← takeBytes 16 t
-  let d ← cfg.ske.encrypt lv.E K2 iv (mark :: padded)
+  let (d, t1) ← skeEncrypt cfg.ske lv K2 (mark :: padded) t
   pure ((l, d), t1)
 
 def encDb (K : Bytes) : DB → List Nat → List (Option Bytes) → Tape →
